@@ -364,6 +364,8 @@ def main(tier):
     results += pmap(run_diffpath, dtasks)
     for r in results:
         agg.add(r)
+    from . import mainwire
+    mainwire.add_to(agg, PROP, binary)
     by_role = {}
     for v in agg.violations:
         by_role.setdefault(v['role'], []).append(v)
@@ -408,7 +410,7 @@ def main(tier):
                      'targets without the b/ prefix whose own first component is `b` are outside the claim'],
         stubs=['FileSystem::walk', 'FileSystem::read_to_string', 'PathChecker::should_allow', 'PathChecker::should_ignore',
                'BlocksParser::parse', 'PatchSet::from_str'],
-        must_cover=['scope-paths', 'diffpath', 'removed'],
+        must_cover=['main', 'scope-paths', 'diffpath', 'removed'],
         explanation='per path: for every file, PC∧in_scope∧not read, PC∧¬in_scope∧read, read twice; diff key vs target minus one b/')
 
 
